@@ -8,42 +8,45 @@
    probes, Serve, the peer with any script, the deadline timer) and over every
    schedule, i.e. every interleaving of their operations. *)
 From XV Require Import lib.Bytes lib.Lts gen.SessClose C10.Model C10.Inv C10.Proofs C10.Closers
-  C10.Transmit C10.InLock C10.Progress C10.Refute C10.Tables C10.Spec.
+  C10.Transmit C10.InLock C10.StateLock C10.Progress C10.Refute C10.Tables C10.Spec.
 
 (* Clause 1.  In every reachable state the wire holds at most one closing tag;
-   the OutputStreamClosed bit is set exactly when it holds one; and as soon as
-   any Close call, or Serve, has returned it holds exactly one — however many
+   it holds exactly one precisely when the OutputStreamClosed bit is set and the
+   tag is no longer owed (closeSession sets the bit under the state lock and
+   writes the tag after releasing it, still under the output lock); and as soon
+   as any Close call, or Serve, has returned it holds exactly one — however many
    callers there are and however they interleave with each other, with
    transmitters, with Serve's own shutdown and with sendError. *)
 Theorem C10_one_closing_tag : forall ds ks tr s,
   run step (init ds ks) tr = Some s ->
   closes (o_wire (s_o s)) <= 1 /\
-  (o_cl (s_o s) = true <-> closes (o_wire (s_o s)) = 1) /\
+  (closes (o_wire (s_o s)) = 1 <-> o_cl (s_o s) = true /\ o_pend (s_o s) = false) /\
   (forall i e, (kind_at ks i KClose \/ kind_at ks i KServe) -> returned s i e ->
      closes (o_wire (s_o s)) = 1).
 Proof. exact one_closing_tag. Qed.
 Print Assumptions C10_one_closing_tag.
 
 (* Clause 2a.  Nothing follows the closing tag on the wire, and from the moment
-   the stream is closed neither the connection nor the encoder's buffer is
-   written again, whatever anybody does. *)
+   the bit is set the encoder's buffer is never written again and the only
+   thing that can still reach the connection is the one closing tag owed by the
+   call that set the bit (tag_only), whatever anybody does. *)
 Theorem C10_nothing_after_close : forall ds ks tr s,
   run step (init ds ks) tr = Some s ->
   (forall pre post, o_wire (s_o s) = pre ++ IClose :: post -> post = []) /\
   (o_cl (s_o s) = true -> forall tr2 s2, run step s tr2 = Some s2 ->
-     o_wire (s_o s2) = o_wire (s_o s) /\ o_buf (s_o s2) = o_buf (s_o s)).
+     o_buf (s_o s2) = o_buf (s_o s) /\ tag_only (s_o s) (s_o s2)).
 Proof. exact nothing_after_close. Qed.
 Print Assumptions C10_nothing_after_close.
 
 (* Clause 2b.  A transmit call of any family (func send — Send, SendElement and
    every SendIQ/Message/Presence/Encode... variant —, Encode, EncodeElement,
    TokenWriter) that has not started when the stream is closed returns, if it
-   returns, the output-closed error, and nothing has been written. *)
+   returns, the output-closed error, and it has written nothing. *)
 Theorem C10_transmit_fails_after_close : forall ds ks tr1 s1 i k tr2 s2 e,
   run step (init ds ks) tr1 = Some s1 ->
   o_cl (s_o s1) = true -> is_transmit k = true -> not_started s1 i k ->
   run step s1 tr2 = Some s2 -> returned s2 i e ->
-  e = EOutClosed /\ o_wire (s_o s2) = o_wire (s_o s1) /\ o_buf (s_o s2) = o_buf (s_o s1).
+  e = EOutClosed /\ o_buf (s_o s2) = o_buf (s_o s1) /\ tag_only (s_o s1) (s_o s2).
 Proof. exact transmit_fails_after_close. Qed.
 Print Assumptions C10_transmit_fails_after_close.
 
@@ -67,6 +70,7 @@ Print Assumptions C10_serve_outcomes.
    expired read deadline (transports with deadlines: i_rdexp is only ever set
    when the transport supports them) ... *)
 Theorem C10_serve_leaves_loop : forall s i k e c via,
+  o_sl (s_o s) = None ->
   a_code (s_a s i) = OServeRead :: k ->
   (i_rdexp (s_i s) = true /\ (e, c, via) = (ETimeout, CTimeout, true) \/
    i_rdexp (s_i s) = false /\ exists ev q, i_q (s_i s) = ev :: q /\ terminal ev = Some (e, c, via)) ->
@@ -76,13 +80,15 @@ Theorem C10_serve_leaves_loop : forall s i k e c via,
 Proof. exact serve_leaves_loop. Qed.
 Print Assumptions C10_serve_leaves_loop.
 
-(* ... and once out of its loop it can always run on to its return: nothing it
-   needs (the output lock for sendError and Close, the input lock for
-   closeInputStream) is held forever by anybody, in any reachable state. *)
+(* ... and once out of its loop it can always run on to its return, provided the
+   peer is reading (writes to the connection complete): nothing else it needs
+   (the output lock for sendError and Close, the input lock for
+   closeInputStream, the state lock) is held forever by anybody, in any
+   reachable state. *)
 Theorem C10_serve_returns : forall ds ks tr s i,
   run step (init ds ks) tr = Some s ->
   kind_at ks i KServe -> (forall j, j <> i -> ~ kind_at ks j KServe) ->
-  loopish (a_code (s_a s i)) = false ->
+  loopish (a_code (s_a s i)) = false -> o_rdy (s_o s) = true ->
   exists tr' s' e, run step s tr' = Some s' /\ returned s' i e.
 Proof. exact serve_returns. Qed.
 Print Assumptions C10_serve_returns.
@@ -94,6 +100,51 @@ Theorem C10_read_after_input_closed : forall s i k s',
   a_e (s_a s' i) = EInClosed.
 Proof. exact read_after_input_closed. Qed.
 Print Assumptions C10_read_after_input_closed.
+
+(* The state lock.  In every reachable state nobody holds the state mutex: its
+   critical sections are single operations (they contain nothing that can
+   block: C10_source_tables), so no actor ever waits for the peer while holding
+   it, and an operation that needs the session state and does not itself write
+   to the connection is never kept waiting by it — whatever write is pending,
+   whether or not the peer is reading. *)
+Theorem C10_state_lock_never_held_across_write : forall ds ks tr s,
+  run step (init ds ks) tr = Some s ->
+  o_sl (s_o s) = None /\
+  (forall i o, reads_state o = true -> writes_conn o (s_o s) = false -> gate i o (s_o s) = true).
+Proof.
+  intros ds ks tr s H. split; [exact (state_lock_free ds ks tr s H)|].
+  intros i o. exact (state_reads_never_blocked ds ks tr s i o H).
+Qed.
+Print Assumptions C10_state_lock_never_held_across_write.
+
+(* Serve's state reads — the input context at the top of its loop, the closed
+   test of its token reader before every read — are enabled in every reachable
+   state, also when the peer is not reading and a closer is stuck in its write
+   of the closing tag holding the output lock. *)
+Theorem C10_serve_state_reads_never_blocked : forall ds ks tr s i k,
+  run step (init ds ks) tr = Some s ->
+  (a_code (s_a s i) = OServeTop :: k -> exists s', step s i = Some s') /\
+  (a_code (s_a s i) = OServeRead :: k -> i_rdexp (s_i s) = true \/ i_q (s_i s) <> [] ->
+     exists s', step s i = Some s').
+Proof. exact serve_reads_enabled. Qed.
+Print Assumptions C10_serve_state_reads_never_blocked.
+
+(* The pinned design (fixed by 039625e): Close and sendError took the state
+   mutex after the output lock and kept it while writing the closing tag.  The
+   statement "a Serve that has input to read can read it" is false of it:
+   witness — the peer stops reading, Close sets the bit and waits in its write
+   holding the mutex, the peer's element arrives, Serve waits for the mutex.
+   Nobody but the peer can move, and the peer (B's handler replying to A) waits
+   for Serve. *)
+Definition C10_state_lock_statement (init0 : state) : Prop := statelock_statement init0.
+
+Theorem C10_state_lock_pinned_refuted : ~ C10_state_lock_statement pinned_init.
+Proof. exact statelock_pinned_refuted. Qed.
+Print Assumptions C10_state_lock_pinned_refuted.
+
+Theorem C10_state_lock_repaired : forall ds ks, C10_state_lock_statement (init ds ks).
+Proof. exact statelock_repaired. Qed.
+Print Assumptions C10_state_lock_repaired.
 
 (* Known finding: the stream error that sendError encodes is not flushed before
    closeSession writes the closing tag directly to the connection; it stays in
@@ -119,7 +170,8 @@ Print Assumptions C10_stream_error_flushed_partial.
    and for WebSocket framing: Send records the opening element (so that Close
    writes <close/>), the negotiator records the framing on the session and the
    stream reader takes the peer's <close/> for the end of the stream — which is
-   what lets IClose / PClose stand for <close/> on such sessions. *)
+   what lets IClose / PClose stand for <close/> on such sessions; and no call
+   that can block sits inside a critical section of the state mutex. *)
 Theorem C10_source_tables :
   sc_out_lockers = map str ["Session.Close"; "Session.Encode"; "Session.EncodeElement";
                             "Session.TokenWriter"; "Session.sendError"; "send"]%string /\
@@ -132,6 +184,7 @@ Theorem C10_source_tables :
   sc_serve_defer_calls = map str ["closeInputStream"; "Close"]%string /\
   sc_setclosedeadline_locked = true /\
   (sc_send_records_opening_element = true /\ sc_negotiator_records_ws = true /\
-   sc_reader_ws_close_is_eof = true).
+   sc_reader_ws_close_is_eof = true) /\
+  sc_statelock_blocking_calls = [].
 Proof. exact source_tables. Qed.
 Print Assumptions C10_source_tables.
